@@ -25,6 +25,15 @@ CLAIMED = {
          "Decode consumes exactly the message bytes for every canonical value and every tail (symbolic length and content); two streamed messages are recovered in order.", "DESIGN.md §6 C07"),
  "C11": ("model_checking", "symbolic execution of Decode on A[:k] with a symbolic cut point; every feasible path must be an error path",
          "For every type/key/shape, every canonical value and every cut position the decoder returns an error; the success path is shown infeasible by z3.", "DESIGN.md §6 C11"),
+
+ "C12": ("model_checking", "concrete execution of the tree's init-built factory tables on all 226 pinned keys plus symbolic execution on a symbolic unregistered key (full 16/32-bit range, texts up to 4 bytes); Encode with absent body per key",
+         "Table identity for all 18 tables x 226 keys; every unregistered key value is shown to produce an error by z3 (an extra or mistyped registration yields the key as counterexample); encoder fill-in builds the pinned type and the reference bytes.", "DESIGN.md §6 C12"),
+ "C13": ("model_checking", "symbolic execution of the real fixed-text writer/reader per width with symbolic pad byte, side, text and image; z3 decides equality with the pad/cut/strip specification",
+         "For 20 widths (0..200), all 256 pad bytes, both sides, every text of length 0..N+2 and every N-byte image the writer emits exactly the specified N bytes and the reader strips only the pad run on the pad side; short buffers are errors.", "DESIGN.md §6 C13"),
+ "C14": ("model_checking", "cut-point symbolic execution of each Calc loop: init/step/exit lemmas against the catalogue CRC formulation and a ghost byte sum (induction over length), plus whole-stream equivalence for short inputs and purity",
+         "CRC-16/MODBUS, SSE and SZSE sums: inductive lemmas discharged by z3 give every length up to 2^26; streams up to 3 (8) symbolic bytes equal the independent formulation; Calc does not touch the buffer; CRC-32 is shown to be hash/crc32 over exactly the unread bytes.", "DESIGN.md §6 C14"),
+ "C18": ("model_checking", "symbolic execution of every prefixed writer with a fully symbolic text length (up to 2^33) and of list writers at max-1..max+2 elements; message-level Encode driven over each text prefix boundary",
+         "z3 shows: success implies length <= max(prefix) for all text writers and all message text fields; list writers refuse max+1 and max+2 elements and write a faithful count at max; at the maximum text round-trips.", "DESIGN.md §6 C18"),
 }
 
 NA_REASON = "check under construction in this session; not yet claimed"
